@@ -1,0 +1,7 @@
+/// Sums floating-point numbers in a canonical order (ascending by `f64::total_cmp`), so that the
+/// result does not depend on the order in which a hash-based collection happens to yield them.
+pub fn ordered_sum<I: Iterator<Item = f64>>(values: I) -> f64 {
+    let mut v: Vec<f64> = values.collect();
+    v.sort_by(|a, b| a.total_cmp(b));
+    v.into_iter().sum()
+}
